@@ -8,6 +8,7 @@ CONSTANTS
   Periodic = FALSE
   Radii = {1, 2}
   MaxN = 4
+  OpenAxes = {}
   M = 2
 INVARIANT Subsequence
 INVARIANT InRange
